@@ -22,6 +22,15 @@ ExplainF(e) ==
                <<e.ik = MilF4(e.k, opc, e.rand), "f4 (IK) differs">>,
                <<e.ak = MilF5(e.k, opc, e.rand), "f5 (AK) differs">>,
                <<e.akStar = MilF5Star(e.k, opc, e.rand), "f5* (AK*) differs">> >>)
+\* a subset of the outputs of f2..f5* requested in one call (bit j of mask: RES, CK, IK, AK, AK*)
+Bit(m, j) == (m \div 2^j) % 2 = 1
+ExplainFsub(e) ==
+   FirstBad(<< <<~e.err, "f2345 returned an error or panicked for a subset of its outputs">>,
+               <<~Bit(e.mask, 0) \/ e.res = MilF2(e.k, e.opc, e.rand), "f2 (RES) differs when outputs " \o Str(e.mask) \o " are requested">>,
+               <<~Bit(e.mask, 1) \/ e.ck = MilF3(e.k, e.opc, e.rand), "f3 (CK) differs when outputs " \o Str(e.mask) \o " are requested">>,
+               <<~Bit(e.mask, 2) \/ e.ik = MilF4(e.k, e.opc, e.rand), "f4 (IK) differs when outputs " \o Str(e.mask) \o " are requested">>,
+               <<~Bit(e.mask, 3) \/ e.ak = MilF5(e.k, e.opc, e.rand), "f5 (AK) differs when outputs " \o Str(e.mask) \o " are requested">>,
+               <<~Bit(e.mask, 4) \/ e.akStar = MilF5Star(e.k, e.opc, e.rand), "f5* (AK*) differs when outputs " \o Str(e.mask) \o " are requested">> >>)
 ExplainGen(e) ==
    FirstBad(<< <<~e.err /\ e.resLen = 8, "generation failed">>,
                <<e.autn = MilAutn(e.k, e.opc, e.rand, e.sqn, e.amf), "AUTN differs from (SQN xor AK) || AMF || MAC-A">>,
@@ -48,6 +57,7 @@ ExplainAuts(e) ==
    ELSE FirstBad(<< <<e.ret = -1, "AUTS with wrong MAC-S accepted">> >>)
 Explain(e) ==
    CASE e.ev = "F" -> ExplainF(e)
+     [] e.ev = "Fsub" -> ExplainFsub(e)
      [] e.ev = "Gen" -> ExplainGen(e)
      [] e.ev = "Check" -> ExplainCheck(e)
      [] e.ev = "Auts" -> ExplainAuts(e)
